@@ -6,6 +6,7 @@
 #
 # SPDX-License-Identifier:    LGPL-3.0-or-later
 
+import hashlib
 import typing
 import warnings
 
@@ -67,7 +68,8 @@ def canonicalize_metadata(
 
     Transform dict to a tuple of (key, value) item tuples ordered by key,
     with dict, list and tuple values converted the same way recursively.
-    Lists and tuples are converted to tuples. Other values are converted using str().
+    Lists and tuples are converted to tuples. Numpy arrays are converted to a string holding
+    dtype, shape and a digest of their contents. Other values are converted using str().
     This is such that the end result can be hashed and sorted using regular <,
     because python 3 doesn't allow e.g. (3 < "auto") which occurs regularly in metadata.
     """
@@ -86,7 +88,16 @@ def canonicalize_metadata(
     for value in values:
         if isinstance(value, dict | list | tuple):
             value = canonicalize_metadata(value)
-        elif isinstance(value, int | float | str | np.ndarray) or value is None:
+        elif isinstance(value, np.ndarray):
+            # str(array) abbreviates arrays with more than 1000 entries and prints 8
+            # significant digits, so different arrays (e.g. quadrature rules) would
+            # get the same key
+            if value.dtype.hasobject:
+                digest = repr(value.tolist())
+            else:
+                digest = hashlib.sha256(np.ascontiguousarray(value).tobytes()).hexdigest()
+            value = f"ndarray({value.dtype.str}, {value.shape}, {digest})"
+        elif isinstance(value, int | float | str) or value is None:
             value = str(value)
         elif hasattr(value, "ufl_signature"):
             value = value.ufl_signature
